@@ -1,4 +1,12 @@
-"""Generates the CrossHair condition functions for C20 (CrossHair reads contracts from source text)."""
+"""Generates the CrossHair condition functions for C20 (CrossHair reads contracts from source text).
+
+A condition is described by a tuple  (mode, holder, P, n, lo, hi, fam, omax, dmax, umax):
+  lo..hi   range of the resolve-order index explored by this shard
+  fam      'S' no outer cancellation (cpoint = NEVER) / 'C' the caller is cancelled at a symbolic point
+  omax     per-resolution outcomes 0..omax (1: value/exception, 2: also the worker's own CancelledError)
+  dmax     drain choices 0..dmax between resolutions; -1: always drain until quiescent (not symbolic)
+  umax     worker unwind turns 0..umax
+"""
 
 HEAD = 'from harness import C20_gather as H\n'
 
@@ -9,7 +17,7 @@ def {NAME}(perm: int, {ARGS}) -> bool:
     pre: {PRE}
     post: _
     """
-    return H.violated({MODE!r}, {HOLDER}, {P}, {N}, perm, [{OUTS}], [{DRAINS}], [{VALS}], {EXC}) == 0
+    return H.violated({MODE!r}, {HOLDER}, {P}, {N}, perm, [{OUTS}], [{DRAINS}], [{VALS}], {CP}, {CD}, {UW}, {EXC}) == 0
 '''
 
 TWIN = '''
@@ -19,38 +27,57 @@ def {NAME}(perm: int, {ARGS}) -> bool:
     pre: {PRE}
     post: _
     """
-    # reachability twin: must be REFUTED (some schedule reaches the end of the oracle with a worker exception raised)
-    return not H.reach({MODE!r}, {HOLDER}, {P}, {N}, perm, [{OUTS}], [{DRAINS}], [{VALS}])
+    # reachability twin: must be REFUTED (family S: some schedule ends with a worker exception raised; family C: the
+    # outer cancel takes effect while a worker is inside its body)
+    return not H.reach({MODE!r}, {HOLDER}, {P}, {N}, perm, [{OUTS}], [{DRAINS}], [{VALS}], {CP}, {CD}, {UW})
 '''
 
 
-def cond_name(mode, holder, P, n, lo, hi, exc):
-    return f'c_{mode}_{"h" if holder else "n"}_{P}_{n}_p{lo}_{hi}_x{exc}'
+def _tag(c):
+    mode, holder, P, n, lo, hi, fam, omax, dmax, umax = c
+    return f'{mode}_{"h" if holder else "n"}_{P}_{n}_p{lo}_{hi}_{fam}o{omax}d{"q" if dmax < 0 else dmax}u{umax}'
 
 
-def twin_name(mode, holder, P, n, lo, hi):
-    return f't_{mode}_{"h" if holder else "n"}_{P}_{n}_p{lo}_{hi}'
+def cond_name(c, exc):
+    return f'c_{_tag(c)}_x{exc}'
 
 
-def _kw(mode, holder, P, n, lo, hi, dmax):
+def twin_name(c):
+    return f't_{_tag(c)}'
+
+
+def argnames(c):
+    mode, holder, P, n, lo, hi, fam, omax, dmax, umax = c
+    a = ['perm'] + [f'o{i}' for i in range(n)]
+    if dmax >= 0:
+        a += [f'd{i}' for i in range(n - 1)]
+    a += [f'v{i}' for i in range(n)]
+    if fam == 'C':
+        a += ['cp', 'cd']
+    a.append('uw')
+    return a
+
+
+def _kw(c):
+    mode, holder, P, n, lo, hi, fam, omax, dmax, umax = c
     o = [f'o{i}' for i in range(n)]
-    d = [f'd{i}' for i in range(n - 1)]
+    d = [f'd{i}' for i in range(n - 1)] if dmax >= 0 else []
     v = [f'v{i}' for i in range(n)]
-    pre = ' and '.join([f'0 <= {x} <= 1' for x in o] + [f'0 <= {x} <= {dmax}' for x in d])
-    return dict(ARGS=', '.join(f'{x}: int' for x in o + d + v), PRE=pre, LO=lo, HI=hi, MODE=mode,
-                HOLDER=holder, P=P, N=n, OUTS=', '.join(o), DRAINS=', '.join(d), VALS=', '.join(v))
+    pre = [f'0 <= {x} <= {omax}' for x in o] + [f'0 <= {x} <= {dmax}' for x in d] + [f'0 <= uw <= {umax}']
+    extra = ['uw']
+    if fam == 'C':
+        pre += [f'0 <= cp <= {n}', '0 <= cd <= 2']
+        extra = ['cp', 'cd', 'uw']
+    return dict(ARGS=', '.join(f'{x}: int' for x in o + d + v + extra), PRE=' and '.join(pre), LO=lo, HI=hi, MODE=mode,
+                HOLDER=holder, P=P, N=n, OUTS=', '.join(o), DRAINS=', '.join(d) if d else ', '.join(['1'] * (n - 1)),
+                VALS=', '.join(v), CP='cp' if fam == 'C' else 'H.NEVER', CD='cd' if fam == 'C' else '0', UW='uw')
 
 
-def argnames(n):
-    return ['perm'] + [f'o{i}' for i in range(n)] + [f'd{i}' for i in range(n - 1)] + [f'v{i}' for i in range(n)]
-
-
-def source(conds, twins, dmax):
-    """conds: list of (mode, holder, P, n, lo, hi, excused_mask); twins: list of (mode, holder, P, n, lo, hi)"""
+def source(conds, twins):
+    """conds: list of (condition tuple, excused_mask); twins: list of condition tuples"""
     out = [HEAD]
-    for mode, holder, P, n, lo, hi, exc in conds:
-        out.append(COND.format(NAME=cond_name(mode, holder, P, n, lo, hi, exc), EXC=exc,
-                               **_kw(mode, holder, P, n, lo, hi, dmax)))
-    for mode, holder, P, n, lo, hi in twins:
-        out.append(TWIN.format(NAME=twin_name(mode, holder, P, n, lo, hi), **_kw(mode, holder, P, n, lo, hi, dmax)))
+    for c, exc in conds:
+        out.append(COND.format(NAME=cond_name(c, exc), EXC=exc, **_kw(c)))
+    for c in twins:
+        out.append(TWIN.format(NAME=twin_name(c), **_kw(c)))
     return '\n'.join(out)
